@@ -349,6 +349,17 @@ def provenance_rule(run, model, rule, dunder, what, own_first_ok=False):
                         okarg = fa is not None and any(s == base_el for s in subterms(fa)) and any(s == ("param", nf.key_p) for s in subterms(fa))
                     if not okarg:
                         bad = "the collected list is %s, not the list of the checker found on the base's member" % show(strip_sites(arg), 120)
+                    # the list that collects the bases' part is created anew for every iteration of each loop that
+                    # encloses the store (the property pass handles getter, setter and deleter in one loop): a list
+                    # created outside would carry one accessor's inherited contracts over to the next accessor
+                    ralts = recv[1] if recv[0] == "phi" else (recv,)
+                    for h in nf.all_loops:
+                        inside_ids = nf.lexical_body(h)
+                        if n.id in inside_ids and h is not nf.base_loops[0]:
+                            lo, hi = h.stmt.lineno, max(getattr(x, "end_lineno", h.stmt.lineno) or h.stmt.lineno for x in ast.walk(h.stmt))
+                            for a in ralts:
+                                if a[0] == "display" and not (lo <= a[3][1] <= hi):
+                                    bad = "the list collecting the bases' %s is created once outside the loop that handles one accessor after the other (line %d): the contracts inherited for one accessor are carried over to the next one" % (what, a[3][1])
                     # no break / return inside the loop over the bases
                     body = nf.lexical_body(nf.base_loops[0])
                     for x in nf.cfg.nodes:
